@@ -1,12 +1,13 @@
-(* C15 hazard pointers: theorems about the model in Hazard.v (src/hazardptrs.c).
+(* C15 hazard pointers: theorems about the model in Hazard.v (src/hazardptrs.c, after the comparator and
+   binary-search fixes).  Everything below holds for all inputs, without guards:
 
-   - void_cmp truncates an intptr_t difference to int: refuted as an order (A), characterised exactly for the
-     NULL slot (B), correct for near pointers (C).
-   - binary_search never examines index 0 when len >= 2 (D, witness E); it finds every element at an index >= 1
-     of a list sorted for the unsigned order (F) and always terminates for len >= 2 (G).
-   - under the explicit guard cmp_consistent the qsort result is the sorted permutation (H), the scanning
-     worker's zeroed slots occupy index 0 (I) and a pointer named by another worker's slot is never freed (J).
-   - outside the guard a protected pointer IS freed (K).                                                       *)
+   - void_cmp agrees with the unsigned pointer order (void_cmp_spec, void_cmp_le).
+   - binary_search terminates for every len (bsearch_total), finds every element of a sorted list at ANY index,
+     index 0 included (bsearch_finds), and only reports elements that are present (bsearch_sound).
+   - the qsort model returns the sorted permutation (isort_perm, isort_sorted, isort_sorted_at).
+   - the scan always completes (scan_total), never frees a pointer named by another worker's hazard slot
+     (scan_keeps_protected), keeps only pointers named by some slot (scan_frees_unprotected) and splits exactly
+     the walked prefix of the free list into kept and freed (scan_partition).                                  *)
 From Coq Require Import List NArith ZArith Bool Arith Lia ZifyBool ZifyNat ZifyN Permutation Sorted.
 From QV Require Import CQueues.Hazard.
 Import ListNotations.
@@ -14,145 +15,106 @@ Local Open Scope N_scope.
 Ltac Zify.zify_post_hook ::= Z.div_mod_to_equations.
 
 (* ------------------------------------------------------------------------------------------------------ *)
-(* A, B, C : the truncating comparator                                                                     *)
+(* 1 : the comparator                                                                                      *)
 
-Theorem void_cmp_trunc_refuted : exists a b, a < b /\ (void_cmp a b > 0)%Z.
-Proof. exists 0, 0x7f0080000010. split; vm_compute; reflexivity. Qed.
-
-Lemma void_cmp_unfold a b :
-  void_cmp a b = ((Z.of_N a - Z.of_N b + 2147483648) mod 4294967296 - 2147483648)%Z.
-Proof. reflexivity. Qed.
-
-Theorem void_cmp_zero_sign : forall p, p < 2^64 ->
-  (2^31 < p mod 2^32 -> (void_cmp 0 p > 0)%Z) /\ (0 < p mod 2^32 < 2^31 -> (void_cmp 0 p < 0)%Z).
+Theorem void_cmp_spec : forall a b, (void_cmp a b ?= 0)%Z = (a ?= b).
 Proof.
-  intros p Hp.
-  change (2^64) with 18446744073709551616 in Hp.
-  change (2^31) with 2147483648. change (2^32) with 4294967296.
-  rewrite void_cmp_unfold. split; intros H; lia.
-Qed.
-
-Theorem void_cmp_near_exact : forall a b, (Z.abs (Z.of_N a - Z.of_N b) < 2^31)%Z ->
-  void_cmp a b = (Z.of_N a - Z.of_N b)%Z.
-Proof.
-  intros a b H. change (2^31)%Z with 2147483648%Z in H. rewrite void_cmp_unfold. lia.
-Qed.
-
-Theorem void_cmp_near_ok : forall a b, (Z.abs (Z.of_N a - Z.of_N b) < 2^31)%Z -> cmp_ok a b = true.
-Proof.
-  intros a b H. unfold cmp_ok. rewrite (void_cmp_near_exact a b H).
-  destruct (Z.compare_spec (Z.of_N a - Z.of_N b) 0) as [E|E|E];
+  intros a b. unfold void_cmp.
+  destruct (N.ltb_spec b a) as [H1|H1]; destruct (N.ltb_spec a b) as [H2|H2];
     destruct (N.compare_spec a b) as [F|F|F]; try reflexivity; exfalso; lia.
 Qed.
 
+Theorem void_cmp_le : forall a b, (void_cmp a b <=? 0)%Z = (a <=? b).
+Proof.
+  intros a b. unfold Z.leb, N.leb. rewrite void_cmp_spec. reflexivity.
+Qed.
+
 (* ------------------------------------------------------------------------------------------------------ *)
-(* D, F, G : loop invariants of binary_search                                                              *)
+(* 2, 3, 4 : loop invariants of binary_search                                                              *)
 
-Lemma bs_loop_S f l x mn mx curs :
-  bs_loop (S f) l x mn mx curs =
-  if at_ l curs =? x then Some true else
-    let mx' := if x <? at_ l curs then curs else mx in
-    let mn' := if at_ l curs <? x then curs else mn in
-    if mx' =? mn' + 1 then Some (at_ l curs =? x)
-    else bs_loop f l x mn' mx' ((mx' + mn') / 2).
+Lemma bs_loop_S f l x mn mx :
+  bs_loop (S f) l x mn mx =
+  if mn <? mx then
+    let curs := mn + (mx - mn) / 2 in
+    if at_ l curs =? x then Some true
+    else if at_ l curs <? x then bs_loop f l x (curs + 1) mx
+    else bs_loop f l x mn curs
+  else Some false.
 Proof. reflexivity. Qed.
 
-Lemma bs_loop_O l x mn mx curs :
-  bs_loop O l x mn mx curs = if at_ l curs =? x then Some true else None.
+Lemma bs_loop_O l x mn mx :
+  bs_loop O l x mn mx = if mn <? mx then None else Some false.
 Proof. reflexivity. Qed.
 
-(* G: the window mx - mn strictly shrinks while mn < curs < mx *)
-Lemma bs_loop_total : forall f l x mn mx curs,
-  mn < curs < mx -> (N.to_nat (mx - mn) <= f)%nat -> bs_loop f l x mn mx curs <> None.
+(* the window mx - mn strictly shrinks *)
+Lemma bs_loop_total : forall f l x mn mx,
+  (N.to_nat (mx - mn) <= f)%nat -> bs_loop f l x mn mx <> None.
 Proof.
-  induction f as [|f IH]; intros l x mn mx curs Hc Hf.
-  - exfalso; lia.
-  - rewrite bs_loop_S. destruct (N.eqb_spec (at_ l curs) x) as [E|E]; [discriminate|].
-    cbv zeta.
-    destruct (N.ltb_spec x (at_ l curs)) as [H1|H1];
-      destruct (N.ltb_spec (at_ l curs) x) as [H2|H2]; try (exfalso; lia).
-    + destruct (N.eqb_spec curs (mn + 1)) as [B|B]; [discriminate|]. apply IH; lia.
-    + destruct (N.eqb_spec mx (curs + 1)) as [B|B]; [discriminate|]. apply IH; lia.
+  induction f as [|f IH]; intros l x mn mx Hf.
+  - rewrite bs_loop_O. destruct (N.ltb_spec mn mx) as [L|L]; [exfalso; lia|discriminate].
+  - rewrite bs_loop_S. destruct (N.ltb_spec mn mx) as [L|L]; [|discriminate].
+    cbv zeta. destruct (at_ l (mn + (mx - mn) / 2) =? x); [discriminate|].
+    destruct (at_ l (mn + (mx - mn) / 2) <? x); apply IH; lia.
 Qed.
 
-Theorem bsearch_total : forall l x len, 2 <= len -> binary_search l x len <> None.
+Theorem bsearch_total : forall l x len, binary_search l x len <> None.
 Proof.
-  intros l x len Hlen. unfold binary_search. apply bs_loop_total; lia.
+  intros l x len. unfold binary_search. apply bs_loop_total. lia.
 Qed.
 
-(* D: every cursor the loop visits lies strictly inside (mn, mx) *)
-Lemma bs_loop_notfound : forall f l x mn mx curs,
-  mn < curs < mx -> (forall i, mn < i < mx -> at_ l i <> x) -> bs_loop f l x mn mx curs <> Some true.
-Proof.
-  induction f as [|f IH]; intros l x mn mx curs Hc Hno.
-  - rewrite bs_loop_O. destruct (N.eqb_spec (at_ l curs) x) as [E|E]; [|discriminate].
-    exfalso. apply (Hno curs Hc E).
-  - rewrite bs_loop_S. destruct (N.eqb_spec (at_ l curs) x) as [E|E].
-    { exfalso. apply (Hno curs Hc E). }
-    cbv zeta.
-    destruct (N.ltb_spec x (at_ l curs)) as [H1|H1];
-      destruct (N.ltb_spec (at_ l curs) x) as [H2|H2]; try (exfalso; lia).
-    + destruct (N.eqb_spec curs (mn + 1)) as [B|B]; [discriminate|].
-      apply IH; [lia|]. intros i Hi. apply Hno. lia.
-    + destruct (N.eqb_spec mx (curs + 1)) as [B|B]; [discriminate|].
-      apply IH; [lia|]. intros i Hi. apply Hno. lia.
-Qed.
-
-Theorem bsearch_never_index0 : forall l x len, 2 <= len ->
-  (forall i, 1 <= i < len -> at_ l i <> x) -> binary_search l x len <> Some true.
-Proof.
-  intros l x len Hlen Hno. unfold binary_search. apply bs_loop_notfound; [lia|].
-  intros i Hi. apply Hno. lia.
-Qed.
-
-(* E *)
-Theorem bsearch_index0_refuted : exists l len,
-  2 <= len /\ N.of_nat (length l) = len /\
-  (forall j k, j <= k -> k < len -> at_ l j <= at_ l k) /\
-  binary_search l (at_ l 0) len = Some false.
-Proof.
-  exists [1;2;3;4], 4. split; [lia|]. split; [reflexivity|]. split; [|vm_compute; reflexivity].
-  intros j k Hjk Hk.
-  assert (Hc : (j = 0 \/ j = 1 \/ j = 2 \/ j = 3) /\ (k = 0 \/ k = 1 \/ k = 2 \/ k = 3)) by lia.
-  destruct Hc as [[-> | [-> | [-> | ->]]] [-> | [-> | [-> | ->]]]]; vm_compute; try discriminate; exfalso; lia.
-Qed.
-
-(* F *)
-Lemma bs_loop_finds : forall f l x len mn mx curs,
+Lemma bs_loop_finds : forall f l x len mn mx,
   (forall j k, j <= k -> k < len -> at_ l j <= at_ l k) ->
-  mx <= len -> mn < curs < mx -> (N.to_nat (mx - mn) <= f)%nat ->
-  (exists j, at_ l j = x /\ mn < j < mx) -> bs_loop f l x mn mx curs = Some true.
+  mx <= len -> (N.to_nat (mx - mn) <= f)%nat ->
+  (exists j, at_ l j = x /\ mn <= j < mx) -> bs_loop f l x mn mx = Some true.
 Proof.
-  induction f as [|f IH]; intros l x len mn mx curs Hs Hmx Hc Hf [j [Hj Hjr]].
+  induction f as [|f IH]; intros l x len mn mx Hs Hmx Hf [j [Hj Hjr]].
   - exfalso; lia.
-  - rewrite bs_loop_S. destruct (N.eqb_spec (at_ l curs) x) as [E|E]; [reflexivity|].
-    cbv zeta.
-    destruct (N.ltb_spec x (at_ l curs)) as [H1|H1];
-      destruct (N.ltb_spec (at_ l curs) x) as [H2|H2]; try (exfalso; lia).
-    + assert (Hjc : j < curs).
-      { destruct (N.lt_ge_cases j curs) as [L|L]; [exact L|].
-        assert (Hle := Hs curs j L ltac:(lia)). exfalso; lia. }
-      destruct (N.eqb_spec curs (mn + 1)) as [B|B]; [exfalso; lia|].
-      apply (IH l x len); [exact Hs|lia|lia|lia|]. exists j. split; [exact Hj|lia].
+  - rewrite bs_loop_S. destruct (N.ltb_spec mn mx) as [L|L]; [|exfalso; lia].
+    cbv zeta. remember (mn + (mx - mn) / 2) as curs eqn:Ec.
+    assert (Hcr : mn <= curs < mx) by lia.
+    destruct (N.eqb_spec (at_ l curs) x) as [E|E]; [reflexivity|].
+    destruct (N.ltb_spec (at_ l curs) x) as [H2|H2].
     + assert (Hjc : curs < j).
-      { destruct (N.lt_ge_cases curs j) as [L|L]; [exact L|].
-        assert (Hle := Hs j curs L ltac:(lia)). exfalso; lia. }
-      destruct (N.eqb_spec mx (curs + 1)) as [B|B]; [exfalso; lia|].
-      apply (IH l x len); [exact Hs|lia|lia|lia|]. exists j. split; [exact Hj|lia].
+      { destruct (N.lt_ge_cases curs j) as [G|G]; [exact G|].
+        assert (Hle := Hs j curs G ltac:(lia)). exfalso; lia. }
+      apply (IH l x len); [exact Hs|lia|lia|]. exists j. split; [exact Hj|lia].
+    + assert (Hjc : j < curs).
+      { destruct (N.lt_ge_cases j curs) as [G|G]; [exact G|].
+        assert (Hle := Hs curs j G ltac:(lia)). exfalso; lia. }
+      apply (IH l x len); [exact Hs|lia|lia|]. exists j. split; [exact Hj|lia].
 Qed.
 
 Theorem bsearch_finds : forall l x len i,
-  N.of_nat (length l) = len ->
   (forall j k, j <= k -> k < len -> at_ l j <= at_ l k) ->
-  1 <= i < len -> at_ l i = x -> binary_search l x len = Some true.
+  i < len -> at_ l i = x -> binary_search l x len = Some true.
 Proof.
-  intros l x len i _ Hs Hi Hx. unfold binary_search.
-  apply (bs_loop_finds _ l x len); [exact Hs|lia|lia|lia|].
+  intros l x len i Hs Hi Hx. unfold binary_search.
+  apply (bs_loop_finds _ l x len); [exact Hs|lia|lia|].
   exists i. split; [exact Hx|lia].
 Qed.
 
+Lemma bs_loop_sound : forall f l x mn mx,
+  bs_loop f l x mn mx = Some true -> exists i, mn <= i < mx /\ at_ l i = x.
+Proof.
+  induction f as [|f IH]; intros l x mn mx H.
+  - rewrite bs_loop_O in H. destruct (mn <? mx); discriminate H.
+  - rewrite bs_loop_S in H. destruct (N.ltb_spec mn mx) as [L|L]; [|discriminate H].
+    cbv zeta in H. remember (mn + (mx - mn) / 2) as curs eqn:Ec.
+    assert (Hcr : mn <= curs < mx) by lia.
+    destruct (N.eqb_spec (at_ l curs) x) as [E|E].
+    + exists curs. split; [exact Hcr|exact E].
+    + destruct (at_ l curs <? x); destruct (IH _ _ _ _ H) as [i [Hi Hx]]; exists i; (split; [lia|exact Hx]).
+Qed.
+
+Theorem bsearch_sound : forall l x len,
+  binary_search l x len = Some true -> exists i, i < len /\ at_ l i = x.
+Proof.
+  intros l x len H. unfold binary_search in H.
+  destruct (bs_loop_sound _ _ _ _ _ H) as [i [Hi Hx]]. exists i. split; [lia|exact Hx].
+Qed.
+
 (* ------------------------------------------------------------------------------------------------------ *)
-(* H : qsort-as-insertion-sort under the guard                                                             *)
+(* 5 : qsort-as-insertion-sort                                                                             *)
 
 Lemma insert_perm : forall x l, Permutation (insert x l) (x :: l).
 Proof.
@@ -170,55 +132,28 @@ Proof.
   - eapply perm_trans; [apply insert_perm|apply perm_skip, IH].
 Qed.
 
-Lemma isort_length : forall l, length (isort l) = length l.
+Theorem isort_length : forall l, length (isort l) = length l.
 Proof. intros l. apply Permutation_length, isort_perm. Qed.
 
-Lemma cmp_ok_le : forall a b, cmp_ok a b = true -> (void_cmp a b <=? 0)%Z = (a <=? b).
+Lemma insert_sorted : forall x l, StronglySorted N.le l -> StronglySorted N.le (insert x l).
 Proof.
-  intros a b. unfold cmp_ok.
-  destruct (Z.compare_spec (void_cmp a b) 0) as [E|E|E];
-    destruct (N.compare_spec a b) as [F|F|F]; intros H; try discriminate H; lia.
-Qed.
-
-Lemma cmp_consistent_le : forall l, cmp_consistent l = true ->
-  forall a b, In a l -> In b l -> (void_cmp a b <=? 0)%Z = (a <=? b).
-Proof.
-  intros l H a b Ha Hb. unfold cmp_consistent in H.
-  rewrite forallb_forall in H. specialize (H a Ha). rewrite forallb_forall in H.
-  apply cmp_ok_le, H, Hb.
-Qed.
-
-Lemma insert_sorted : forall x l,
-  (forall y, In y l -> (void_cmp x y <=? 0)%Z = (x <=? y)) ->
-  StronglySorted N.le l -> StronglySorted N.le (insert x l).
-Proof.
-  intros x l. induction l as [|y l IH]; intros Hc Hs; cbn [insert].
+  intros x l. induction l as [|y l IH]; intros Hs; cbn [insert].
   - constructor; constructor.
   - inversion Hs as [|y' l' Hs' Hall]; subst.
-    rewrite (Hc y (or_introl eq_refl)).
+    rewrite void_cmp_le.
     destruct (N.leb_spec x y) as [L|L].
     + constructor; [exact Hs|]. constructor; [exact L|].
       eapply Forall_impl; [|exact Hall]. intros z Hz; cbv beta in Hz. lia.
     + constructor.
-      * apply IH; [|exact Hs']. intros z Hz. apply Hc. right; exact Hz.
+      * apply IH. exact Hs'.
       * eapply Permutation_Forall; [apply Permutation_sym, insert_perm|].
         constructor; [lia|exact Hall].
 Qed.
 
-Lemma isort_sorted_gen : forall l,
-  (forall a b, In a l -> In b l -> (void_cmp a b <=? 0)%Z = (a <=? b)) ->
-  StronglySorted N.le (isort l).
+Theorem isort_sorted : forall l, StronglySorted N.le (isort l).
 Proof.
-  induction l as [|x l IH]; intros Hc; cbn [isort].
-  - constructor.
-  - apply insert_sorted.
-    + intros y Hy. apply Hc; [left; reflexivity|right].
-      eapply Permutation_in; [apply isort_perm|exact Hy].
-    + apply IH. intros a b Ha Hb. apply Hc; right; assumption.
+  induction l as [|x l IH]; cbn [isort]; [constructor|apply insert_sorted, IH].
 Qed.
-
-Theorem isort_sorted : forall l, cmp_consistent l = true -> StronglySorted N.le (isort l).
-Proof. intros l H. apply isort_sorted_gen, cmp_consistent_le, H. Qed.
 
 Lemma ssorted_nth : forall l, StronglySorted N.le l ->
   forall j k : nat, (j <= k)%nat -> (k < length l)%nat -> nth j l 0 <= nth k l 0.
@@ -239,15 +174,15 @@ Proof.
   intros l Hs j k Hjk Hk. unfold at_. apply ssorted_nth; [exact Hs|lia|lia].
 Qed.
 
-Theorem isort_sorted_at : forall l, cmp_consistent l = true ->
-  forall j k, j <= k -> k < N.of_nat (length l) -> at_ (isort l) j <= at_ (isort l) k.
+Theorem isort_sorted_at : forall l j k,
+  j <= k -> k < N.of_nat (length l) -> at_ (isort l) j <= at_ (isort l) k.
 Proof.
-  intros l H j k Hjk Hk. apply ssorted_at; [apply isort_sorted, H|exact Hjk|].
+  intros l j k Hjk Hk. apply ssorted_at; [apply isort_sorted|exact Hjk|].
   rewrite isort_length. exact Hk.
 Qed.
 
 (* ------------------------------------------------------------------------------------------------------ *)
-(* I, J : the scan under the guard                                                                         *)
+(* 6 - 9 : the scan                                                                                        *)
 
 Lemma combine_seq_nth : forall (A : Type) (d : A) (l : list A) (s w : nat),
   (w < length l)%nat -> In ((s + w)%nat, nth w l d) (combine (seq s (length l)) l).
@@ -269,147 +204,150 @@ Proof.
   - apply (combine_seq_nth _ [] slots 0 w Hlt).
 Qed.
 
-Lemma collect_own_zero : forall slots me,
-  (me < length slots)%nat -> nth me slots [] <> [] -> In 0 (collect slots me).
-Proof.
-  intros slots me Hlt Hne. unfold collect. apply in_concat.
-  exists (map (fun _ => 0) (nth me slots [])). split.
-  - apply in_map_iff. exists (me, nth me slots []). split.
-    + cbn [fst snd]. rewrite Nat.eqb_refl. reflexivity.
-    + apply (combine_seq_nth _ [] slots 0 me Hlt).
-  - destruct (nth me slots []) as [|a r]; [contradiction|]. left; reflexivity.
-Qed.
-
-Theorem own_slots_zero_mask : forall slots me,
-  cmp_consistent (collect slots me) = true -> (me < length slots)%nat -> nth me slots [] <> [] ->
-  at_ (isort (collect slots me)) 0 = 0.
-Proof.
-  intros slots me Hc Hlt Hne.
-  assert (Hin : In 0 (isort (collect slots me))).
-  { eapply Permutation_in; [apply Permutation_sym, isort_perm|]. apply collect_own_zero; assumption. }
-  assert (Hs := isort_sorted _ Hc).
-  unfold at_. change (N.to_nat 0) with O.
-  destruct (isort (collect slots me)) as [|h t]; [destruct Hin|].
-  cbn [nth]. inversion Hs as [|h' t' Hs' Hall]; subst.
-  destruct Hin as [E|Hin]; [exact E|].
-  rewrite Forall_forall in Hall. specialize (Hall 0 Hin). lia.
-Qed.
-
-Lemma stage2_freed : forall sl nhp fl kept freed p,
-  stage2 sl nhp fl = Some (kept, freed) -> In p freed -> binary_search sl p nhp = Some false.
-Proof.
-  intros sl nhp fl. induction fl as [|q fl IH]; intros kept freed p H Hin; cbn [stage2] in H.
-  - injection H as <- <-. destruct Hin.
-  - destruct (q =? 0).
-    + injection H as <- <-. destruct Hin.
-    + destruct (binary_search sl q nhp) as [[|]|] eqn:Eb; [| |discriminate H].
-      * destruct (stage2 sl nhp fl) as [[k f]|]; [|discriminate H].
-        injection H as <- <-. eapply IH; [reflexivity|exact Hin].
-      * destruct (stage2 sl nhp fl) as [[k f]|]; [|discriminate H].
-        injection H as <- <-. destruct Hin as [E|Hin].
-        -- subst q. exact Eb.
-        -- eapply IH; [reflexivity|exact Hin].
-Qed.
-
-Lemma stage2_total : forall sl nhp fl, 2 <= nhp -> stage2 sl nhp fl <> None.
-Proof.
-  intros sl nhp fl Hn. induction fl as [|q fl IH]; cbn [stage2]; [discriminate|].
-  destruct (q =? 0); [discriminate|].
-  assert (Hb := bsearch_total sl q nhp Hn).
-  destruct (binary_search sl q nhp) as [[|]|]; [| |contradiction];
-    destruct (stage2 sl nhp fl) as [[k f]|]; try contradiction; discriminate.
-Qed.
-
-Theorem scan_total : forall slots me fl,
-  (2 <= length (collect slots me))%nat -> scan slots me fl <> None.
-Proof. intros slots me fl H. unfold scan. apply stage2_total. lia. Qed.
-
-(* under the guard every non-NULL collected pointer is found by the binary search *)
 Theorem collected_found : forall slots me p,
-  cmp_consistent (collect slots me) = true -> (me < length slots)%nat -> nth me slots [] <> [] ->
-  In p (collect slots me) -> p <> 0 ->
+  In p (collect slots me) ->
   binary_search (isort (collect slots me)) p (N.of_nat (length (collect slots me))) = Some true.
 Proof.
-  intros slots me p Hc Hlt Hne Hin Hp0.
-  assert (Hz := own_slots_zero_mask slots me Hc Hlt Hne).
+  intros slots me p Hin.
   assert (Hin' : In p (isort (collect slots me))).
   { eapply Permutation_in; [apply Permutation_sym, isort_perm|exact Hin]. }
   destruct (In_nth _ _ 0 Hin') as [n [Hn Hnth]].
   rewrite isort_length in Hn.
   apply (bsearch_finds _ p _ (N.of_nat n)).
-  - rewrite isort_length. reflexivity.
-  - apply isort_sorted_at, Hc.
-  - assert (n <> O).
-    { intros ->. unfold at_ in Hz. change (N.to_nat 0) with O in Hz. congruence. }
-    lia.
+  - intros j k. apply isort_sorted_at.
+  - lia.
   - unfold at_. rewrite Nat2N.id. exact Hnth.
 Qed.
 
+Lemma stage2_total : forall sl nhp fl, stage2 sl nhp fl <> None.
+Proof.
+  intros sl nhp fl. induction fl as [|q fl IH]; cbn [stage2]; [discriminate|].
+  destruct (q =? 0); [discriminate|].
+  assert (Hb := bsearch_total sl q nhp).
+  destruct (binary_search sl q nhp) as [[|]|]; [| |contradiction];
+    destruct (stage2 sl nhp fl) as [[k f]|]; try contradiction; discriminate.
+Qed.
+
+Theorem scan_total : forall slots me fl, scan slots me fl <> None.
+Proof. intros slots me fl. unfold scan. apply stage2_total. Qed.
+
+(* the walked prefix of the free list: everything before the first 0 entry *)
+Fixpoint upto0 (fl : list N) : list N :=
+  match fl with
+  | [] => []
+  | p :: fl' => if p =? 0 then [] else p :: upto0 fl'
+  end.
+
+(* complete description of stage 2 *)
+Lemma stage2_spec : forall sl nhp fl kept freed,
+  stage2 sl nhp fl = Some (kept, freed) ->
+  Permutation (kept ++ freed) (upto0 fl) /\
+  (forall p, In p kept -> binary_search sl p nhp = Some true) /\
+  (forall p, In p freed -> binary_search sl p nhp = Some false /\ p <> 0).
+Proof.
+  intros sl nhp fl. induction fl as [|q fl IH]; intros kept freed H; cbn [stage2 upto0] in *.
+  - injection H as <- <-. split; [apply perm_nil|]. split; intros p [].
+  - destruct (N.eqb_spec q 0) as [Z|Z].
+    + injection H as <- <-. split; [apply perm_nil|]. split; intros p [].
+    + destruct (binary_search sl q nhp) as [[|]|] eqn:Eb; [| |discriminate H];
+        (destruct (stage2 sl nhp fl) as [[k f]|]; [|discriminate H]);
+        injection H as <- <-; destruct (IH k f eq_refl) as [HP [HK HF]].
+      * split; [cbn [app]; apply perm_skip, HP|]. split; [|exact HF].
+        intros p [E|Hin]; [subst p; exact Eb|apply HK, Hin].
+      * split; [eapply perm_trans; [apply Permutation_sym, Permutation_middle|apply perm_skip, HP]|].
+        split; [exact HK|].
+        intros p [E|Hin]; [subst p; split; [exact Eb|exact Z]|apply HF, Hin].
+Qed.
+
 Theorem scan_keeps_protected : forall slots me fl p w kept freed,
-  cmp_consistent (collect slots me) = true -> (me < length slots)%nat -> nth me slots [] <> [] ->
-  w <> me -> In p (nth w slots []) -> (w < length slots)%nat -> p <> 0 ->
+  w <> me -> (w < length slots)%nat -> In p (nth w slots []) ->
   scan slots me fl = Some (kept, freed) -> ~ In p freed.
 Proof.
-  intros slots me fl p w kept freed Hc Hlt Hne Hw Hp Hwlt Hp0 Hscan Hfreed.
-  unfold scan in Hscan.
-  assert (Hb := stage2_freed _ _ _ _ _ p Hscan Hfreed).
-  rewrite (collected_found slots me p Hc Hlt Hne (collect_other slots me w p Hw Hwlt Hp) Hp0) in Hb.
+  intros slots me fl p w kept freed Hw Hwlt Hp Hscan Hfreed. unfold scan in Hscan.
+  destruct (stage2_spec _ _ _ _ _ Hscan) as [_ [_ HF]]. destruct (HF p Hfreed) as [Hb _].
+  rewrite (collected_found slots me p (collect_other slots me w p Hw Hwlt Hp)) in Hb.
   discriminate Hb.
 Qed.
 
-(* ------------------------------------------------------------------------------------------------------ *)
-(* K : outside the guard a protected pointer is freed                                                      *)
-
-Theorem scan_protected_freed_refuted : exists slots me fl p w,
-  w <> me /\ In p (nth w slots []) /\ p <> 0 /\
-  exists kept freed, scan slots me fl = Some (kept, freed) /\ In p freed.
+(* more generally: nothing that any slot (as collected) names is freed, and NULL is never freed *)
+Theorem scan_freed_not_collected : forall slots me fl kept freed p,
+  scan slots me fl = Some (kept, freed) -> In p freed -> ~ In p (collect slots me) /\ p <> 0.
 Proof.
-  exists [[0;0];[0x7f0080000040;0];[0;0];[0;0]], O, [0x7f0080000040], 0x7f0080000040, 1%nat.
-  split; [discriminate|]. split; [left; reflexivity|]. split; [discriminate|].
-  exists [], [0x7f0080000040]. split; [vm_compute; reflexivity|left; reflexivity].
+  intros slots me fl kept freed p Hscan Hfreed. unfold scan in Hscan.
+  destruct (stage2_spec _ _ _ _ _ Hscan) as [_ [_ HF]]. destruct (HF p Hfreed) as [Hb Hz].
+  split; [|exact Hz]. intros Hin. rewrite (collected_found slots me p Hin) in Hb. discriminate Hb.
 Qed.
 
-(* the collected list of that witness violates the guard, and the sorted list has the pointer at index 0 *)
-Example witness_not_consistent :
-  cmp_consistent (collect [[0;0];[0x7f0080000040;0];[0;0];[0;0]] 0) = false.
-Proof. vm_compute. reflexivity. Qed.
+Theorem scan_frees_unprotected : forall slots me fl kept freed p,
+  scan slots me fl = Some (kept, freed) -> In p kept -> In p (collect slots me).
+Proof.
+  intros slots me fl kept freed p Hscan Hkept. unfold scan in Hscan.
+  destruct (stage2_spec _ _ _ _ _ Hscan) as [_ [HK _]].
+  destruct (bsearch_sound _ _ _ (HK p Hkept)) as [i [Hi Hx]].
+  eapply Permutation_in; [apply isort_perm|].
+  rewrite <- Hx. unfold at_. apply nth_In. rewrite isort_length. lia.
+Qed.
 
-Example witness_sorted_front :
-  isort (collect [[0;0];[0x7f0080000040;0];[0;0];[0;0]] 0) = [0x7f0080000040;0;0;0;0;0;0;0].
-Proof. vm_compute. reflexivity. Qed.
+Theorem scan_partition : forall slots me fl kept freed,
+  scan slots me fl = Some (kept, freed) ->
+  exists pre, pre = upto0 fl /\ Permutation (kept ++ freed) pre.
+Proof.
+  intros slots me fl kept freed Hscan. unfold scan in Hscan.
+  exists (upto0 fl). split; [reflexivity|]. apply (stage2_spec _ _ _ _ _ Hscan).
+Qed.
 
 (* ------------------------------------------------------------------------------------------------------ *)
-(* L : the hypotheses of F and J are satisfiable with non-trivial data                                     *)
+(* 10 : examples; the inputs on which the code before the fixes failed are handled correctly               *)
 
-Definition ex_slots : list (list N) := [[0x1000;0x1040];[0x2080;0];[0;0x10c0];[0x1100;0x1140]].
-
-Example ex_guard : cmp_consistent (collect ex_slots 1) = true.
+(* a realistic pointer with bit 31 set, protected by worker 1, retired by worker 0: kept *)
+Example regress_bit31_kept :
+  scan [[0;0];[0x7f0080000040;0];[0;0];[0;0]] 0 [0x7f0080000040] = Some ([0x7f0080000040], []).
 Proof. vm_compute. reflexivity. Qed.
 
-Example ex_sorted : isort (collect ex_slots 1) = [0;0;0;0x1000;0x1040;0x10c0;0x1100;0x1140].
+Example regress_bit31_sorted :
+  isort (collect [[0;0];[0x7f0080000040;0];[0;0];[0;0]] 0) = [0;0;0;0;0;0;0;0x7f0080000040].
+Proof. vm_compute. reflexivity. Qed.
+
+Example regress_cmp_far : (void_cmp 0 0x7f0080000010 < 0)%Z.
+Proof. vm_compute. reflexivity. Qed.
+
+(* index 0 is examined *)
+Example regress_index0 : binary_search [1;2;3;4] 1 4 = Some true.
+Proof. vm_compute. reflexivity. Qed.
+
+Example regress_len1 : binary_search [5] 3 1 = Some false /\ binary_search [5] 5 1 = Some true
+                       /\ binary_search [] 5 0 = Some false.
+Proof. vm_compute. repeat split. Qed.
+
+(* a non-trivial scan: four workers with two slots each, worker 1 scans *)
+Definition ex_slots : list (list N) :=
+  [[0x1000;0x7f0080000040];[0x2080;0];[0;0x10c0];[0x1100;0xffff800000001140]].
+
+Example ex_sorted :
+  isort (collect ex_slots 1) = [0;0;0;0x1000;0x10c0;0x1100;0x7f0080000040;0xffff800000001140].
 Proof. vm_compute. reflexivity. Qed.
 
 Example ex_scan :
-  scan ex_slots 1 [0x1040; 0x3000; 0x1140; 0x2080; 0; 0x1000] = Some ([0x1040; 0x1140], [0x3000; 0x2080]).
+  scan ex_slots 1 [0x7f0080000040; 0x3000; 0xffff800000001140; 0x2080; 0x1000; 0; 0x10c0]
+  = Some ([0x7f0080000040; 0xffff800000001140; 0x1000], [0x3000; 0x2080]).
 Proof. vm_compute. reflexivity. Qed.
 
 Example ex_kept : forall kept freed,
-  scan ex_slots 1 [0x1040; 0x3000; 0x1140; 0x2080; 0; 0x1000] = Some (kept, freed) -> ~ In 0x1040 freed.
+  scan ex_slots 1 [0x7f0080000040; 0x3000; 0xffff800000001140; 0x2080; 0x1000; 0; 0x10c0] = Some (kept, freed) ->
+  ~ In 0x7f0080000040 freed.
 Proof.
   intros kept freed H.
-  apply (scan_keeps_protected ex_slots 1 [0x1040; 0x3000; 0x1140; 0x2080; 0; 0x1000] 0x1040 0 kept freed); try exact H.
-  - exact ex_guard.
+  apply (scan_keeps_protected ex_slots 1
+           [0x7f0080000040; 0x3000; 0xffff800000001140; 0x2080; 0x1000; 0; 0x10c0] 0x7f0080000040 0 kept freed);
+    try exact H.
+  - discriminate.
   - cbn; lia.
-  - discriminate.
-  - discriminate.
   - right; left; reflexivity.
-  - cbn; lia.
-  - discriminate.
 Qed.
 
-Example ex_bsearch_finds : binary_search [0;0;0x1000;0x1040;0x10c0] 0x1040 5 = Some true.
+Example ex_bsearch_finds : binary_search [0;0;0x1000;0x1040;0x10c0] 0 5 = Some true.
 Proof.
-  apply (bsearch_finds _ _ _ 3); [reflexivity| |lia|reflexivity].
+  apply (bsearch_finds _ _ _ 0); [|lia|reflexivity].
   apply (ssorted_at [0;0;0x1000;0x1040;0x10c0]).
   repeat (constructor; [|repeat (constructor; try (vm_compute; discriminate))]). constructor.
 Qed.
